@@ -2,30 +2,36 @@
 (C04, file-cache layer: model coq/theories/Hist/FcacheChunk.v, driver
 harness/fcache_drv.c, engines ml/eng_fcache.ml).
 
-Case line (hex numbers):  <filesz> <pgszlog> <order> <cap> | <op> <op> ...
+Case line (hex numbers):  <nfiles> <sz0>,<sz1>,.. <pgszlog> <order> <cap> | <op> <op> ...
 
-    G:<pos>:<mf>:<rf>              fcache_get; a successful get becomes the next handle (0, 1, ...)
-    P:<h>                          fcache_put of handle h (ignored when h does not exist / was put)
-    R:<pos>:<len>:<mf>:<rf>        fcache_pread
-    K:<pos>:<len>:<mf>:<rf>:<al>   fcache_get_chunk, read the data, fcache_put_chunk
-    H:<pos>:<len>:<mf>:<rf>:<al>   fcache_get_chunk, kept as the next chunk handle
-    Q:<h>                          fcache_put_chunk of chunk handle h
-    M:<p>                          mmap policy := p (0 NEVER, 1 ALWAYS, 2 TRY, 3 TRY_ONCE)
+    G:<f>:<pos>:<mf>:<rf>              fcache_get on file f; a successful get becomes the next handle
+    P:<h>                              fcache_put of handle h (ignored when h does not exist / was put)
+    R:<f>:<pos>:<len>:<mf>:<rf>        fcache_pread
+    K:<f>:<pos>:<len>:<mf>:<rf>:<al>   fcache_get_chunk, read the data, fcache_put_chunk
+    H:<f>:<pos>:<len>:<mf>:<rf>:<al>   fcache_get_chunk, kept as the next chunk handle
+    Q:<h>                              fcache_put_chunk of chunk handle h
+    M:<p>                              mmap policy := p (0 NEVER, 1 ALWAYS, 2 TRY, 3 TRY_ONCE)
 
-<mf>/<rf>/<al> are strings of 0/1 ("-" = none): the i-th mmap / pread / malloc call that
-fcache.c makes during the op fails.  The byte of the file at offset o is
-(o*31 + o/4096*7 + 5) & 0xff on both sides; the page size is the system's (4096).
+<f> is the file index (always below <nfiles>).  <mf>/<rf>/<al> are strings of 0/1 ("-" = none):
+the i-th mmap / pread / malloc call that fcache.c makes during the op fails.  The byte of file f
+at offset o is (o*31 + o/4096*7 + 5 + 101*f) & 0xff on both sides (the files of a set differ at
+every offset); the page size is the system's (4096).
+
+One to three files per case; operations often repeat the range of an earlier operation on ANOTHER
+file of the set (same block offsets, different file: the two sub-caches must keep them apart by
+the file index in the key), the policy is often NEVER (read-fallback cache) and the caps are small,
+so that "still cached" and "evicted" both happen.
 
 What the generator guarantees (so that model and implementation must agree token by token):
 
-* a failure bit is only attached to an operation whose whole range lies in mmap blocks that no
-  earlier operation of the case touched: the model runs with the replacement oracle "drop every
-  unreferenced entry at each miss", the real cache keeps entries, and a failure only strikes on
-  a miss -- on untouched blocks both sides miss;
+* a failure bit is only attached to an operation whose whole range lies in mmap blocks (of that
+  file) that no earlier operation of the case touched: the model runs with the replacement oracle
+  "drop every unreferenced entry at each miss", the real cache keeps entries, and a failure only
+  strikes on a miss -- on untouched blocks both sides miss;
 * once an operation carries an mmap failure bit, no later operation of the case touches the
-  mmap blocks of its range: the failed mapping stays cached as an unreferenced MAP_FAILED
-  entry that answers ERR_SYSTEM until the replacement drops it -- when that happens is the
-  real cache's choice, which the model's replacement oracle does not follow;
+  mmap blocks of its range in that file: the failed mapping stays cached as an unreferenced
+  MAP_FAILED entry that answers ERR_SYSTEM until the replacement drops it -- when that happens is
+  the real cache's choice, which the model's replacement oracle does not follow;
 * positions stay far below 2^63 (off_t overflow is outside the model), except for one fixed
   probe of the guard at the top of fcache_get_chunk;
 * handles held by G are mostly kept below cap, sometimes not (BUSY paths).
@@ -63,34 +69,47 @@ def _positions(filesz, mmapsz):
 
 def gen_case(rng, maxops=10):
     """One history as a case line.  Uses only `rng` (a random.Random)."""
-    filesz = rng.choice(FILESIZES)
-    if rng.random() < 0.15:
-        filesz = rng.randint(0, 17 * PGSZ)
+    nfiles = rng.choice([1, 2, 2, 2, 3, 3])
+    sizes = []
+    for _ in range(nfiles):
+        sz = rng.choice(FILESIZES)
+        if rng.random() < 0.15:
+            sz = rng.randint(0, 17 * PGSZ)
+        sizes.append(sz)
+    if nfiles > 1 and rng.random() < 0.4:
+        sizes = [sizes[0]] * nfiles                 # equal sizes: only the contents differ
     order = rng.choice([0, 1, 2])
     cap = rng.choice([1, 2, 2, 3, 4])
     mmapsz = PGSZ << order
-    poss = _positions(filesz, mmapsz)
-    ceil = (filesz + PGSZ - 1) // PGSZ * PGSZ
-    touched = set()          # mmap blocks some earlier op may have put into a cache
+    poss = [_positions(sz, mmapsz) for sz in sizes]
+    ceils = [(sz + PGSZ - 1) // PGSZ * PGSZ for sz in sizes]
+    touched = set()          # (file, mmap block) some earlier op may have put into a cache
+    poisoned = set()         # (file, mmap block) that may hold a cached MAP_FAILED
+    ranges = []              # (file, pos, len) of earlier range operations
     held = []                # handle numbers we believe are live
     nhandles = 0
     chunks = []              # chunk handles we believe are live: (number, entries)
     nchunks = 0
     ops = []
+    if rng.random() < 0.4:
+        ops.append("M:0")    # read-fallback cache from the start
     # failures are only comparable on untouched blocks: put them early, in some cases
-    fail_budget = rng.choice([0, 0, 1, 2]) if rng.random() < 0.5 else 0
+    fail_budget = rng.choice([0, 0, 1, 2]) if rng.random() < 0.4 else 0
 
-    poisoned = set()         # mmap blocks that may hold a cached MAP_FAILED
-
-    def pick_range(within):
-        for _ in range(20):
-            pos, ln = pick_range1(within)
-            if not (blocks(pos, ln) & poisoned):
-                return pos, ln
-        return None, None
+    def blocks(f, pos, ln):
+        return set((f, b) for b in range(pos // mmapsz, (pos + max(ln, 1) - 1) // mmapsz + 1))
 
     def pick_range1(within):
-        pos = rng.choice(poss)
+        if nfiles > 1 and ranges and rng.random() < 0.5:
+            # the range of an earlier operation, on another file of the set
+            f0, pos, ln = rng.choice(ranges)
+            f = rng.choice([x for x in range(nfiles) if x != f0])
+            if rng.random() < 0.3:
+                pos = pos // PGSZ * PGSZ + rng.choice([0, 1, 17, 2048])
+            return f, pos, ln
+        f = rng.randrange(nfiles)
+        ceil = ceils[f]
+        pos = rng.choice(poss[f])
         r = rng.random()
         if r < 0.08:
             ln = 0
@@ -102,18 +121,22 @@ def gen_case(rng, maxops=10):
             ln = rng.randint(1, 5 * PGSZ)
         if within and pos + ln > ceil:
             if pos >= ceil:
-                pos = rng.choice([p for p in poss if p <= ceil])
+                pos = rng.choice([p for p in poss[f] if p <= ceil])
             ln = min(ln, ceil - pos)
-        return pos, ln
+        return f, pos, ln
 
-    def blocks(pos, ln):
-        return set(range(pos // mmapsz, (pos + max(ln, 1) - 1) // mmapsz + 1))
+    def pick_range(within):
+        for _ in range(20):
+            f, pos, ln = pick_range1(within)
+            if not (blocks(f, pos, ln) & poisoned):
+                return f, pos, ln
+        return None, None, None
 
     for _ in range(rng.randint(1, maxops)):
         k = rng.random()
         refs = len(held) + sum(n for _, n in chunks)
         if k < 0.10:
-            ops.append("M:%x" % rng.choice([0, 1, 2, 3, 3]))
+            ops.append("M:%x" % rng.choice([0, 0, 0, 1, 2, 3, 3]))
         elif k < 0.30:
             # hold an entry; mostly leave one slot free, sometimes fill the cache
             if refs >= cap - 1 and rng.random() < 0.8 and held:
@@ -122,19 +145,18 @@ def gen_case(rng, maxops=10):
                 continue
             if len(held) >= MAXHELD:
                 continue
-            pos, _ = pick_range(rng.random() < 0.85)
-            if pos is None:
-                continue
-            if blocks(pos, 1) & poisoned:
+            f, pos, _ = pick_range(rng.random() < 0.85)
+            if pos is None or (blocks(f, pos, 1) & poisoned):
                 continue
             mf = rf = "-"
-            if fail_budget and not (blocks(pos, 1) & touched) and rng.random() < 0.6:
+            if fail_budget and not (blocks(f, pos, 1) & touched) and rng.random() < 0.6:
                 fail_budget -= 1
                 mf, rf = _bits(rng, 1, 0.5), _bits(rng, 1, 0.5)
-            ops.append("G:%x:%s:%s" % (pos, mf, rf))
-            touched |= blocks(pos, 1)
+            ops.append("G:%x:%x:%s:%s" % (f, pos, mf, rf))
+            touched |= blocks(f, pos, 1)
+            ranges.append((f, pos, 1))
             if mf != "-":
-                poisoned |= blocks(pos, 1)
+                poisoned |= blocks(f, pos, 1)
             held.append(nhandles)      # if the get fails the handle number is reused: harmless
             nhandles += 1
         elif k < 0.40:
@@ -143,35 +165,37 @@ def gen_case(rng, maxops=10):
             else:
                 h = rng.randint(0, nhandles + 1)      # stale or unknown handle: ignored
             ops.append("P:%x" % h)
-        elif k < 0.65:
-            pos, ln = pick_range(rng.random() < 0.8)
+        elif k < 0.68:
+            f, pos, ln = pick_range(rng.random() < 0.8)
             if pos is None:
                 continue
             mf = rf = "-"
-            if fail_budget and not (blocks(pos, ln) & touched) and rng.random() < 0.7:
+            if fail_budget and not (blocks(f, pos, ln) & touched) and rng.random() < 0.7:
                 fail_budget -= 1
                 n = ln // PGSZ + 2
                 mf, rf = _bits(rng, n, 0.3), _bits(rng, n, 0.3)
-            ops.append("R:%x:%x:%s:%s" % (pos, ln, mf, rf))
-            touched |= blocks(pos, ln)
+            ops.append("R:%x:%x:%x:%s:%s" % (f, pos, ln, mf, rf))
+            touched |= blocks(f, pos, ln)
+            ranges.append((f, pos, ln))
             if mf != "-":
-                poisoned |= blocks(pos, ln)
+                poisoned |= blocks(f, pos, ln)
         elif k < 0.95:
-            pos, ln = pick_range(rng.random() < 0.8)
+            f, pos, ln = pick_range(rng.random() < 0.8)
             if pos is None:
                 continue
             mf = rf = al = "-"
             if rng.random() < 0.12:
                 al = _bits(rng, 2, 0.5)               # malloc failures do not depend on hits
-            if fail_budget and not (blocks(pos, ln) & touched) and rng.random() < 0.7:
+            if fail_budget and not (blocks(f, pos, ln) & touched) and rng.random() < 0.7:
                 fail_budget -= 1
                 n = ln // PGSZ + 2
                 mf, rf = _bits(rng, n, 0.3), _bits(rng, n, 0.3)
             hold = rng.random() < 0.08 and len(chunks) < 2
-            ops.append("%s:%x:%x:%s:%s:%s" % ("H" if hold else "K", pos, ln, mf, rf, al))
-            touched |= blocks(pos, ln)
+            ops.append("%s:%x:%x:%x:%s:%s:%s" % ("H" if hold else "K", f, pos, ln, mf, rf, al))
+            touched |= blocks(f, pos, ln)
+            ranges.append((f, pos, ln))
             if mf != "-":
-                poisoned |= blocks(pos, ln)
+                poisoned |= blocks(f, pos, ln)
             if hold:
                 chunks.append((nchunks, ln // PGSZ + 1))
                 nchunks += 1
@@ -182,8 +206,9 @@ def gen_case(rng, maxops=10):
                 h = rng.randint(0, nchunks + 1)
             ops.append("Q:%x" % h)
     if rng.random() < 0.01:
-        ops.append("K:7ffffffffffffff0:20:-:-:-")      # guard: last byte beyond OFF_T_MAX
-    return "%x %x %x %x | %s" % (filesz, PGSZLOG, order, cap, " ".join(ops))
+        ops.append("K:0:7ffffffffffffff0:20:-:-:-")     # guard: last byte beyond OFF_T_MAX
+    return "%x %s %x %x %x | %s" % (nfiles, ",".join("%x" % z for z in sizes), PGSZLOG, order, cap,
+                                     " ".join(ops))
 
 
 def spec_line(case, impl_out):
